@@ -234,6 +234,16 @@ def run(ctx):
                 elif abs(fid - 1) > 1e-6:
                     ctx.violation(f"LI fidelity against choi_from_unitary(V) is {fid:.9f}", case=case,
                                   mechanism="li_fidelity", monitor="LIProcessTomography.process post-condition")
+                else:
+                    # a fidelity worth the name is 0 against the Choi matrix of a unitary W with tr(W^dagger V) = 0
+                    # (W = V Z_1; whatever convention - F or sqrt(F) - is used for intermediate values)
+                    z1 = np.kron(np.diag([1.0, -1.0]), np.eye(d // 2))
+                    ctx.count("fidelity_against_orthogonal_process")
+                    f0 = pt.fidelity(tomo.choi_from_unitary(v @ z1))
+                    if not abs(f0) <= 1e-3:
+                        ctx.violation(f"LI fidelity against the Choi matrix of an orthogonal unitary (V Z_1) is {f0:.6f}",
+                                      case=case, mechanism="li_fidelity_orthogonal_process_not_zero",
+                                      monitor="LIProcessTomography.fidelity post-condition")
             elif method == "MLE":
                 if "pt" not in objs:
                     objs["pt"] = new_obj(tomo.MLEProcessTomography, n, base, callback())
@@ -254,6 +264,14 @@ def run(ctx):
                 if tp > 1e-3:
                     ctx.violation(f"MLE Choi matrix is not trace preserving (partial trace off by {tp:.3g})", case=case,
                                   mechanism="mle_trace_preserving", monitor="MLEProcessTomography.process post-condition")
+                # the same figure computed here: choi_ref is rank one, so F = tr(choi_ref choi) / d^2; the weaker reading
+                # (sqrt(F) >= 0.99) is demanded, so that neither fidelity convention is presumed
+                ctx.count("mle_fidelity_recomputed")
+                f_own = float(np.sqrt(max(0.0, float(np.real(np.trace(choi_ref @ choi))))) / d)
+                if f_own < 0.99 - 1e-3 and fid >= 0.99:
+                    ctx.violation(f"MLE Choi matrix: sqrt(tr(choi_ref choi))/d = {f_own:.4f} although the reported fidelity "
+                                  f"is {fid:.4f}", case=case, mechanism="mle_fidelity_recomputed",
+                                  monitor="MLEProcessTomography.process post-condition")
                 if fid < 0.99:
                     ctx.violation(f"MLE fidelity to choi_from_unitary(V) is {fid:.4f}", case=case,
                                   mechanism="mle_fidelity" + (":nonsymmetric" if complex_nonsym else ""),
